@@ -1,5 +1,5 @@
 (* Props/C03.v -- property theorems for C03 only. *)
-From LV Require Import Base FS FSFacts LayerEnv LayerEnvFacts LayerShared LayerSharedGone LayerEnvFS LayerEnvFSFacts Determinism LayerEnvFSExact FSInv LayerEnvFSCompose LayerEnvReadback LayerEnvFSRead LayerEnvFSCycle LayerEnvFSProc LayerEnvFSFull LayerEnvFSOrder.
+From LV Require Import Base FS FSFacts LayerEnv LayerEnvFacts LayerShared LayerSharedGone LayerEnvFS LayerEnvFSFacts Determinism LayerEnvFSExact FSInv LayerEnvFSCompose LayerEnvReadback LayerEnvFSRead LayerEnvFSCycle LayerEnvFSProc LayerEnvFSFull LayerEnvFSOrder LayerEnvFSApply.
 From Coq Require Import Lia.
 From LVGen Require Import GenLayerEnv.
 
@@ -209,6 +209,34 @@ Theorem c03_write_then_read_full :
                  (s', Ok (read_result_full layer_path_specs path_list_separator e dir s')).
 Proof. exact (write_then_read_full writer_suffix reader_suffix reader_no_ext layer_path_specs path_list_separator reads_process gen_tables_inverse eq_refl). Qed.
 Print Assumptions c03_write_then_read_full.
+
+(* "reads back unchanged" in the sense the property asks for: after write_to_layer_dir, the environment
+   read_from_layer_dir returns APPLIES, for every scope and every starting environment, exactly as the
+   written environment does (with the implicit layer paths of the directories now on disk).  The two
+   values can differ in one respect only -- process deltas without entries have no representation
+   on disk -- and apply cannot see it. *)
+Theorem c03_roundtrip_applies_identically :
+  forall e dir s,
+    fs_inv s dir -> env_ok_full writer_suffix e ->
+    root_ok s (dir ++ [n_env]) -> root_ok s (dir ++ [n_env_build]) -> root_ok s (dir ++ [n_env_launch]) ->
+    exists s' e',
+      write_to_layer_dir beh_order writer_suffix e dir s = (s', Ok tt) /\
+      read_from_layer_dir reader_suffix reader_no_ext layer_path_specs path_list_separator reads_process dir s' = (s', Ok e') /\
+      forall sc e0,
+        le_apply beh_order scope_fields e' sc e0 =
+        le_apply beh_order scope_fields
+          (mkLE (le_all e) (le_build e) (le_launch e) (le_process e)
+                (le_paths_build (read_layer_paths layer_path_specs path_list_separator dir s'))
+                (le_paths_launch (read_layer_paths layer_path_specs path_list_separator dir s'))) sc e0.
+Proof.
+  intros e dir s I0 OK RA RB RL.
+  destruct (c03_write_then_read_full e dir s I0 OK RA RB RL) as (s' & EW & _ & _ & ER).
+  exists s', (read_result_full layer_path_specs path_list_separator e dir s').
+  split; [exact EW|]. split; [exact ER|]. intros sc e0.
+  destruct OK as (_ & _ & _ & (PND & _) & _ & _).
+  exact (filter_empty_procs_invisible beh_order scope_fields _ _ _ (le_process e) _ _ sc e0 PND).
+Qed.
+Print Assumptions c03_roundtrip_applies_identically.
 
 (* std::fs::read_dir lists a directory in no particular order (FS.readdir lists sorted): with the
    listing order as an explicit oracle -- ANY function giving some permutation of each directory's
